@@ -6,6 +6,7 @@ import numpy as np
 
 from harness import common as C
 from harness import selectors as S
+from harness import voronoi_obj as VO
 
 ANCHORS = {"src/skmatter/sample_selection/_voronoi_fps.py": [
     "VoronoiFPS._init_greedy_search", "VoronoiFPS._continue_greedy_search", "VoronoiFPS._get_active",
@@ -104,8 +105,8 @@ def run_impl(case):
             out.append(dict(error=S.err_class(e), error_msg=str(e)[:160]))
             break
         realised = Fraction(float(sel.full_fraction))
-        if ff is None and not (0 <= realised < 1 and (realised * 128).denominator == 1):
-            out.append(dict(error="Calibration", error_msg="calibrated full_fraction %s is not k/128 in [0,1)" % realised))
+        if ff is None and not (0 < realised < 1 and (realised * 128).denominator == 1):
+            out.append(dict(error="Calibration", error_msg="calibrated full_fraction %s is not k/128 in (0,1)" % realised))
             break
         sched += [[realised.numerator, realised.denominator]] * (int(sel.n_selected_) - nsel_prev)
         nsel_prev = int(sel.n_selected_)
@@ -232,6 +233,7 @@ def run(ctx):
             broken.append(out[-1500:])
             continue
         mismatched += [g[k] for k in lists[0]]
+    ext = run_extension(ctx, stats)
     reported = set()
     for i in range(len(cases)):
         msg = oracle(cases[i], ress[i])
@@ -254,19 +256,131 @@ def run(ctx):
                theorems=po["theorems"], axioms=po["axioms"],
                trusted_base=C.TRUSTED_BASE_COMMON + [
                    "binary64 is exact on the integer lattice domain (incl. the *0.25 of dSL_)",
-                   "the timing-calibrated full_fraction is read back after the fit and fed to the model; the theorem quantifies over every branch schedule"],
-               evaluations=len(cases), distinct_nontrivial=nontrivial,
+                   "the timing-calibrated full_fraction is read back after the fit and fed to the model; the theorem quantifies over every branch schedule",
+                   "sessions: the wall clock seen by the calibration is replaced harness-side (FakeClock) so that its comparison outcomes are known and fed to Model/VorCalib.v",
+                   "real-valued data: tie-aware Python oracle only (the theorems are exact-arithmetic)"],
+               evaluations=len(cases) + ext["evaluations"], distinct_nontrivial=nontrivial + ext["nontrivial"],
                rule="integer lattices (mostly strongly clustered); cold fits and warm chains observing every step; "
                     "full_fraction fixed / changed per stage / calibrated; non-trivial = distinct case with >= 3 "
-                    "selections where on at least a third of the steps the pruning rule skips >= half the candidates",
-               traces_validated_against_impl=len(idx) - len(set(mismatched) & set(idx)),
+                    "selections where on at least a third of the steps the pruning rule skips >= half the candidates; "
+                    "PLUS (round 3) distinct sessions on one object containing a cold refit on other data after a "
+                    "successful fit (all attributes compared after every call)",
+               traces_validated_against_impl=len(idx) - len(set(mismatched) & set(idx)) + ext["validated"],
                samples=[dict(case=cases[i], observed=ress[i]) for i in range(min(2, len(cases)))],
                distribution=stats, anchor_drift=changed)
     return C.finish(ctx, "proof", cov, ["exact-arithmetic model; ties within rounding on non-integer data are outside the theorems"])
 
 
+def run_extension(ctx, stats):
+    """round 3: sessions on one object (Model/VorObj.v), forced calibration outcomes
+    (Model/VorCalib.v), rejected parameters (vor_validate), real-valued data (oracle only)."""
+    q = ctx.quick
+    nsess, nfloat, nguard = (240, 150, 80) if q else (1800, 2500, 400)
+    imp = "From Verif Require Import ListX Greedy FPS Voronoi VorCalib VorObj.\n"
+    sess = [VO.gen_session(ctx.rng, q) for _ in range(nsess)]
+    sres = [VO.run_session(c) for c in sess]
+    guards = [VO.gen_guard(ctx.rng) for _ in range(nguard)]
+    gres = [VO.run_guard(g) for g in guards]
+    floats = [VO.gen_float_case(ctx.rng, q) for _ in range(nfloat)]
+    fres = [VO.run_float(c) for c in floats]
+    # --- Coq: sessions in shards of 60, then one shard with calibrations + rejections
+    per = 60
+    groups = [list(range(i, min(i + per, nsess))) for i in range(0, nsess, per)]
+    shards = [C.SHARD_HEAD + imp + "Definition verdicts : list bool := [\n %s].\nEval vm_compute in (failing verdicts).\n"
+              % ";\n ".join(VO.session_coq(sess[i], sres[i]) for i in g) for g in groups]
+    calib = [(i, t) for i in range(nsess) for t in VO.calib_coq(sess[i], sres[i])]
+    small = [t for _, t in calib] + [VO.guard_coq(g, r) for g, r in zip(guards, gres)]
+    shards.append(C.SHARD_HEAD + imp + "Definition verdicts : list bool := [\n %s].\nEval vm_compute in (failing verdicts).\n"
+                  % ";\n ".join(small or ["true"]))
+    outs = C.run_shards(ctx.prop, shards)
+    bad_sess, bad_small, broken = set(), set(), []
+    for gi, (rc, out) in enumerate(outs):
+        lists = C.parse_nat_lists(out)
+        if rc != 0 or len(lists) != 1:
+            broken.append(out[-1500:])
+            continue
+        if gi < len(groups):
+            bad_sess |= {groups[gi][k] for k in lists[0]}
+        else:
+            bad_small |= set(lists[0])
+    for k in sorted(bad_small):
+        if k < len(calib):
+            bad_sess.add(calib[k][0])
+    bad_guard = {k - len(calib) for k in bad_small if k >= len(calib)}
+    # --- verdicts
+    for i in range(nsess):
+        msg = VO.session_oracle(sess[i], sres[i])
+        if msg:
+            C.report_violation(ctx, "C06 fails on the implementation: " + msg,
+                               dict(case=dict(kind="session", **sess[i]), observed=sres[i]), found_input=True)
+        elif i in bad_sess:
+            C.report_violation(ctx, "correspondence object-level Voronoi model vs implementation broken over a session "
+                                    "of fits on one object (oracle accepts the outputs)",
+                               dict(case=dict(kind="session", **sess[i]), observed=sres[i],
+                                    correspondence="sess_ok / calib_case_ok (Model/VorObj.v, Model/VorCalib.v)"),
+                               found_input=False)
+    for i in range(nguard):
+        msg = VO.guard_oracle(guards[i], gres[i])
+        if msg:
+            C.report_violation(ctx, "C06 fails on the implementation: " + msg,
+                               dict(case=dict(kind="guard", **guards[i]), observed=gres[i]), found_input=True)
+        elif i in bad_guard:
+            C.report_violation(ctx, "correspondence vor_validate vs implementation broken (which exception is raised)",
+                               dict(case=dict(kind="guard", **guards[i]), observed=gres[i],
+                                    correspondence="vor_validate (Model/VorObj.v)"), found_input=False)
+    for i in range(nfloat):
+        msg = VO.float_oracle(floats[i], fres[i])
+        if msg:
+            C.report_violation(ctx, "C06 fails on the implementation: " + msg,
+                               dict(case=dict(kind="float", **floats[i]), observed=fres[i]), found_input=True)
+    for txt in broken:
+        C.report_violation(ctx, "correspondence shard (sessions) did not evaluate", dict(coq_output=txt), found_input=False)
+    # --- coverage
+    refit, seen = 0, set()
+    st = dict(sessions=nsess, calls=0, calls_rejected=0, cold_refits_same_n=0, cold_refits_other_shape=0,
+              warm_calls=0, calibrations_forced=len(calib), calibrated_values=set(), guards=nguard,
+              guards_accepted=sum(1 for r in gres if not r["error"]),
+              guard_errors={}, float_cases=nfloat, float_with_earlier_fit=sum(1 for c in floats if c["prefit"]),
+              float_warm=sum(1 for c in floats if c["warm_from"]),
+              float_differs_from_fps_by_tie=sum(1 for r in fres if not r["error"] and r["sel"] != r["ref_sel"]))
+    for r in gres:
+        st["guard_errors"][str(r["error"])] = st["guard_errors"].get(str(r["error"]), 0) + 1
+    for c, r in zip(sess, sres):
+        prev_n, has_refit = None, False
+        for cc, rr in zip(c["calls"], r["calls"]):
+            st["calls"] += 1
+            st["calls_rejected"] += "error" in rr
+            st["warm_calls"] += cc["kind"] == "warm"
+            if rr.get("calibrated") and rr.get("ff"):
+                st["calibrated_values"].add(rr["ff"][0] * 128 // rr["ff"][1])
+            if cc["kind"] == "cold" and "error" not in rr:
+                nn = len(c["data"][cc["data"]]["X"])
+                if prev_n is not None:
+                    has_refit = True
+                    st["cold_refits_same_n" if prev_n == nn else "cold_refits_other_shape"] += 1
+                prev_n = nn
+        key = repr(c)
+        if has_refit and key not in seen:
+            refit += 1
+        seen.add(key)
+    st["calibrated_values"] = len(st["calibrated_values"])
+    stats["round3"] = st
+    return dict(evaluations=nsess + nguard + nfloat, nontrivial=refit,
+                validated=nsess - len(bad_sess) + nguard - len(bad_guard))
+
+
 def replay(ctx, obj):
     c = obj["case"]
+    kind = c.get("kind")
+    if kind == "session":
+        msg = VO.session_oracle(c, VO.run_session(c))
+    elif kind == "guard":
+        msg = VO.guard_oracle(c, VO.run_guard(c))
+    elif kind == "float":
+        msg = VO.float_oracle(c, VO.run_float(c))
+    if kind in ("session", "guard", "float"):
+        print("replay:", msg or "property holds on this input now")
+        return 1 if msg else 0
     r = run_impl(c)
     msg = oracle(c, r)
     print("replay:", msg or "property holds on this input now")
